@@ -125,4 +125,106 @@ theorem addChoice_new (r : SwitchR) (var type : Str) (args : List (Option Str)) 
   cases r
   simp_all
 
+/-- **a new test with an explicit category name that is not in use**: one category (at the end of
+the categories, carrying that name) and one case are added -/
+theorem addChoice_named (r : SwitchR) (var type : Str) (args : List (Option Str)) (name : Str) (dest : Dest) (s : St)
+    (hnew : ∀ k ∈ r.cases, ¬ (k.type = type ∧ k.args = (if s.noArgs.contains type then [] else args)))
+    (hne : name ≠ []) (hfree : r.catByName name = none)
+    (Q : SwitchR → St → Prop)
+    (h : s.testTypes.contains type = true →
+      Q { r with operand := if var.isEmpty then r.operand else var,
+                 cats := r.cats ++ [{ uid := tid s.next, name := name,
+                                      exitUid := tid (s.next + 1), dest := dest }],
+                 cases := r.cases ++ [{ uid := tid (s.next + 2), type := type,
+                                        args := if s.noArgs.contains type then [] else args,
+                                        catUid := tid s.next }] }
+        { s with next := s.next + 3 }) :
+    wp (addChoice r var type args name dest false) s Q := by
+  unfold addChoice
+  wp_simp
+  generalize hr0 : (if var.isEmpty = true then r else { r with operand := var }) = r0
+  have hc0 : r0.cases = r.cases := by subst hr0; split <;> rfl
+  have hcats0 : r0.cats = r.cats := by subst hr0; split <;> rfl
+  have hall0 : r0.catByName name = r.catByName name := by subst hr0; split <;> rfl
+  have hop0 : r0.operand = if var.isEmpty then r.operand else var := by subst hr0; split <;> rfl
+  have hnone : r0.cases.find? (fun k => decide (k.type = type ∧ k.args = (if s.noArgs.contains type then [] else args))) = none := by
+    rw [List.find?_eq_none, hc0]
+    intro k hk; simpa using hnew k hk
+  rw [hnone]
+  have hemp : name.isEmpty = false := by cases name with | nil => exact absurd rfl hne | cons _ _ => rfl
+  simp only [hemp, Bool.false_eq_true, if_false]
+  unfold choiceCat
+  simp only [Bool.false_eq_true, if_false]
+  rw [hall0, hfree]
+  wp_simp [wp_mkCat]
+  refine ⟨fun _ => trivial, fun _ => ?_⟩
+  unfold choiceCase
+  wp_simp [wp_fresh']
+  refine ⟨fun ht => ?_, fun _ => trivial⟩
+  have := h ht
+  have e : ({ r with operand := if var.isEmpty then r.operand else var } : SwitchR) = r0 := by
+    subst hr0; split <;> rfl
+  cases r0
+  cases r
+  simp_all
+
+/-- **a new test selecting the default category** (`is_default`): the default category takes the
+destination (and the name, if one is given); one case is added -/
+theorem addChoice_default (r : SwitchR) (var type : Str) (args : List (Option Str)) (name : Str) (dest : Dest) (s : St)
+    (hnew : ∀ k ∈ r.cases, ¬ (k.type = type ∧ k.args = (if s.noArgs.contains type then [] else args)))
+    (hne : name ≠ [])
+    (Q : SwitchR → St → Prop)
+    (h : s.testTypes.contains type = true →
+      Q { r with operand := if var.isEmpty then r.operand else var,
+                 dflt := { r.dflt with dest := dest, name := name },
+                 cases := r.cases ++ [{ uid := tid s.next, type := type,
+                                        args := if s.noArgs.contains type then [] else args,
+                                        catUid := r.dflt.uid }] }
+        { s with next := s.next + 1 }) :
+    wp (addChoice r var type args name dest true) s Q := by
+  unfold addChoice
+  wp_simp
+  generalize hr0 : (if var.isEmpty = true then r else { r with operand := var }) = r0
+  have hc0 : r0.cases = r.cases := by subst hr0; split <;> rfl
+  have hd0 : r0.dflt = r.dflt := by subst hr0; split <;> rfl
+  have hnone : r0.cases.find? (fun k => decide (k.type = type ∧ k.args = (if s.noArgs.contains type then [] else args))) = none := by
+    rw [List.find?_eq_none, hc0]
+    intro k hk; simpa using hnew k hk
+  rw [hnone]
+  have hemp : name.isEmpty = false := by cases name with | nil => exact absurd rfl hne | cons _ _ => rfl
+  simp only [hemp, Bool.false_eq_true, if_false]
+  unfold choiceCat
+  simp only [if_true]
+  wp_simp
+  unfold choiceCase
+  wp_simp [wp_fresh']
+  refine ⟨fun ht => ?_, fun _ => trivial⟩
+  have := h ht
+  have e : ({ r with operand := if var.isEmpty then r.operand else var } : SwitchR) = r0 := by
+    subst hr0; split <;> rfl
+  cases r0
+  cases r
+  simp_all
+
+/-- a new test whose category is new: named explicitly (a name not in use) or by the generator -/
+theorem addChoice_any (r : SwitchR) (var type : Str) (args : List (Option Str)) (name : Str) (dest : Dest) (s : St)
+    (hnew : ∀ k ∈ r.cases, ¬ (k.type = type ∧ k.args = (if s.noArgs.contains type then [] else args)))
+    (hfree : name ≠ [] → r.catByName name = none)
+    (Q : SwitchR → St → Prop)
+    (h : s.testTypes.contains type = true →
+      Q { r with operand := if var.isEmpty then r.operand else var,
+                 cats := r.cats ++ [{ uid := tid s.next,
+                                      name := if name.isEmpty then genCatName (if var.isEmpty then r else { r with operand := var }) args else name,
+                                      exitUid := tid (s.next + 1), dest := dest }],
+                 cases := r.cases ++ [{ uid := tid (s.next + 2), type := type,
+                                        args := if s.noArgs.contains type then [] else args,
+                                        catUid := tid s.next }] }
+        { s with next := s.next + 3 }) :
+    wp (addChoice r var type args name dest false) s Q := by
+  by_cases hn : name = []
+  · subst hn
+    exact addChoice_new r var type args dest s hnew Q (by simpa using h)
+  · have hemp : name.isEmpty = false := by cases name with | nil => exact absurd rfl hn | cons _ _ => rfl
+    exact addChoice_named r var type args name dest s hnew hn (hfree hn) Q (by simpa [hemp] using h)
+
 end Rpft.Compile
